@@ -210,6 +210,14 @@ func (m *cModel) apply(o COp) cRes {
 			e = int64(len(d))
 		}
 		return cRes{OK: true, Data: d[o.Off:e]}
+	case "stat", "chmod":
+		return cRes{OK: true}
+	case "trunc":
+		if o.Off > int64(len(h.node.data)) {
+			return cRes{}
+		}
+		h.node.data = h.node.data[:o.Off]
+		return cRes{OK: true}
 	case "list":
 		if !h.node.dir {
 			return cRes{}
@@ -298,6 +306,19 @@ func (st *c18Conc) exec(o COp) cRes {
 			return cRes{}
 		}
 		return cRes{OK: true, Data: string(buf[:n])}
+	case "stat":
+		_, err := h.Stat(ctx)
+		return cRes{OK: err == nil}
+	case "trunc":
+		err := h.WStat(ctx, p9p.Dir{Mode: ^uint32(0), Length: uint64(o.Off)})
+		return cRes{OK: err == nil}
+	case "chmod":
+		mode := uint32(0700)
+		if h.Qid().Type&p9p.QTDIR != 0 {
+			mode |= p9p.DMDIR
+		}
+		err := h.WStat(ctx, p9p.Dir{Mode: mode, Length: ^uint64(0), UID: "x"})
+		return cRes{OK: err == nil}
 	case "list":
 		next, err := h.OpenDir(ctx)
 		if err != nil {
@@ -356,6 +377,20 @@ func c18Specs() []c18Spec {
 			Tasks: [][]COp{{{Kind: "clunk", H: "x"}, {Kind: "clunk", H: "r0"}}, {w("y", "z", ".."), {Kind: "clunk", H: "y"}}}},
 		{Name: "remove|remove-same", Setup: []COp{cr("r0", "a", false), w("r1", "x", "a")},
 			Tasks: [][]COp{{{Kind: "remove", H: "r0"}}, {{Kind: "remove", H: "x"}}}},
+		{Name: "stat|write", Setup: []COp{cr("r0", "a", false), w("r1", "x", "a")},
+			Tasks: [][]COp{{{Kind: "write", H: "r0", Off: 0, Data: "xy"}}, {{Kind: "stat", H: "x"}}}},
+		{Name: "trunc|read", Setup: []COp{cr("r0", "a", false), w("r1", "x", "a"), {Kind: "write", H: "r0", Off: 0, Data: "abcd"}},
+			Tasks: [][]COp{{{Kind: "trunc", H: "r0", Off: 1}}, {{Kind: "read", H: "x", Off: 0, N: 8}}}},
+		{Name: "list|write-child", Setup: []COp{cr("r0", "a", false)},
+			Tasks: [][]COp{{{Kind: "write", H: "r0", Off: 0, Data: "xy"}}, {{Kind: "list", H: "r1"}}}},
+		{Name: "clunk|clunk-shared-dir", Setup: []COp{cr("r0", "d", true), w("r1", "x", "d"), w("r2", "y", "d"), {Kind: "remove", H: "r0"}},
+			Tasks: [][]COp{{{Kind: "clunk", H: "x"}}, {{Kind: "clunk", H: "y"}}}},
+		{Name: "stat|trunc", Setup: []COp{cr("r0", "a", false), w("r1", "x", "a")},
+			Tasks: [][]COp{{{Kind: "trunc", H: "r0", Off: 0}}, {{Kind: "stat", H: "x"}}}},
+		{Name: "list|chmod-dir", Setup: []COp{cr("r0", "d", true), w("r1", "x", "d"), w("r2", "y", "d")},
+			Tasks: [][]COp{{{Kind: "chmod", H: "x"}}, {{Kind: "list", H: "y"}}, {{Kind: "chmod", H: "r3"}}}},
+		{Name: "walk|chmod-dir", Setup: []COp{cr("r0", "d", true), w("r1", "x", "d")},
+			Tasks: [][]COp{{{Kind: "chmod", H: "x"}}, {w("r2", "y", "d"), w("y", "z", "..")}, {cr("r3", "e", false)}}},
 		{Name: "create|remove|walk", Setup: []COp{cr("r0", "a", false), w("r1", "x", "a")},
 			Tasks: [][]COp{{{Kind: "remove", H: "x"}}, {cr("r2", "b", false)}, {w("r3", "y", "a")}}},
 	}
@@ -563,5 +598,56 @@ func c18Scenarios() []*explore.Scenario {
 	for _, sp := range c18Specs() {
 		out = append(out, c18ConcScenario(sp))
 	}
+	for _, sp := range c18Specs() {
+		out = append(out, c18RaceScenario(sp))
+	}
 	return out
+}
+
+// ---- race mode: the same collisions with per-task private harness state ----
+
+type c18RaceState struct{ ok bool }
+
+// c18RaceScenario runs spec's tasks with nothing shared between them but
+// the ramfs tree itself: each task owns a private copy of the handle table
+// and records nothing, so that every race the detector reports is between
+// accesses of the code under test.
+func c18RaceScenario(sp c18Spec) *explore.Scenario {
+	spec := sp
+	return &explore.Scenario{
+		Name:  "race/" + spec.Name,
+		Cache: true,
+		Body: func() any {
+			st := &c18Conc{fs: ramfs.VerifNewServer(), handles: map[string]p9p.Dirent{}, files: map[string]p9p.File{}, setupOK: true}
+			ctx := context.Background()
+			for i := 0; i < 4; i++ {
+				h, _ := st.fs.Attach(ctx, fmt.Sprintf("u%d", i), "", nil)
+				st.handles[fmt.Sprintf("r%d", i)] = h
+			}
+			for _, o := range spec.Setup {
+				st.exec(o)
+			}
+			for ti, ops := range spec.Tasks {
+				ops := ops
+				// private copy of the handle table for this task
+				mine := &c18Conc{fs: st.fs, handles: map[string]p9p.Dirent{}, files: map[string]p9p.File{}}
+				for k, v := range st.handles {
+					mine.handles[k] = v
+				}
+				vsched.Go(fmt.Sprintf("session%d", ti), func() {
+					for _, o := range ops {
+						mine.exec(o)
+					}
+				})
+			}
+			return &c18RaceState{ok: true}
+		},
+		Check: func(state any, e *vsched.Exec) (string, []explore.Finding) {
+			var fs []explore.Finding
+			if len(e.Panics) > 0 {
+				fs = append(fs, explore.Finding{Sig: "C18:race-mode:panic", Msg: panicList(e)})
+			}
+			return "ran", fs
+		},
+	}
 }
